@@ -53,7 +53,7 @@ func runC20E1(c *Ctx) {
 				if k == bufAt {
 					continue
 				}
-				if derivesThroughRepo(a, isDecoded) || derives(a, isDecoded) {
+				if derivesThroughRepo(a, isDecoded) || c20Derives(a, isDecoded) {
 					bad = true
 				}
 			}
